@@ -3,7 +3,7 @@ import math
 
 PROP_FILES = ["Props/C19.v"]
 NEEDS_GEN = False
-TRUSTED = ["Model/History.v is a hand-written abstraction of the table bookkeeping (row sets per channel flag / parameter column / recordings / inputs / groups); the invariants it proves are evaluated on the real tables after every operation",
+TRUSTED = ["Model/History.v is a hand-written abstraction of the table bookkeeping (row sets per channel flag / parameter column / recordings / stimuli / clamps / groups / trainables); it is run (vm_compute) on the operations of every sampled history and its final state compared with the real tables; the invariants it proves are also evaluated on the real tables after every operation",
            "the reference simulation is a module rebuilt from scratch out of the displayed tables only"]
 ASSUMPTIONS = ["the for-all over histories is proved of the model for the modelled operations; the code is tied to it by exhaustive short and random longer histories on irregular cells and small networks"]
 
@@ -144,16 +144,31 @@ def run(ctx):
                              "parents": [int(x) for x in cell.comb_parents], "counts": [int(x) for x in cell.ncomp_per_branch]})
         return txt
 
+    CH_ID = {c.__name__: k for k, c in enumerate(channels())}
+    COLS = []
+    for c in channels():
+        for k in list(c().channel_params) + list(c().channel_states):
+            if k not in COLS:
+                COLS.append(k)
+    OWNS = "[" + "; ".join("[" + "; ".join(str(COLS.index(k)) for k in list(c().channel_params) + list(c().channel_states)) + "]" for c in channels()) + "]"
+    model = {"ops": [], "groups": []}
+
+    def cl(xs):
+        return "[" + "; ".join(str(int(x)) for x in xs) + "]"
+
     def apply_(cell, op, rng):
         n = len(cell.nodes)
         rows = sorted(rng.sample(range(n), rng.randint(1, n)))
         view = cell.select(nodes=rows) if rng.random() < 0.8 else cell
+        R = rows if view is not cell else list(range(n))
+        mops = model["ops"]
         txt = f"{op} on rows {rows if view is not cell else 'all'}"
         with quiet():
             if op == "insert":
                 cls = rng.choice(channels())
                 view.insert(cls())
                 txt += f" {cls.__name__}"
+                mops.append(f"Insert {CH_ID[cls.__name__]} {cl(R)}")
             elif op == "delete_channel":
                 if not cell.channels:
                     return None
@@ -163,10 +178,12 @@ def run(ctx):
                     view.delete_channel(ch)
                 except ValueError:
                     return txt + " (refused: not in view)"
+                mops.append(f"Delete {CH_ID[type(ch).__name__]} {cl(R)}")
             elif op == "set":
                 key = rng.choice(["radius", "length", "v"] + [k for c in cell.channels for k in c.channel_params])
                 view.set(key, {"radius": 1.5, "length": 8.0, "v": -63.0}.get(key, 1e-3))
                 txt += f" {key}"
+                mops.append(f"SetParam {cl(R)}")
             elif op == "set_ncomp":
                 if len(cell.externals) or len(cell.recordings) or len(cell.trainable_params) or len(cell.comb_parents) < 2:
                     return None
@@ -182,33 +199,61 @@ def run(ctx):
                         return txt + " (refused: " + type(ex).__name__ + ")"
                     return txt
                 txt = f"branch({b}).set_ncomp({k})"
+                start = int(sum(int(x) for x in cell.ncomp_per_branch[:b]))
+                old = int(cell.ncomp_per_branch[b])
                 try:
                     cell.branch(b).set_ncomp(k)
                 except ValueError as ex:
                     return txt + " (refused: " + str(ex)[:40] + ")"
+                mops.append(f"SetNcomp {start} {old} {k}")
             elif op == "add_to_group":
-                view.add_to_group(rng.choice(["g1", "g2"]))
+                gname = rng.choice(["g1", "g2"])
+                view.add_to_group(gname)
+                if gname not in model["groups"]:
+                    model["groups"].append(gname)
+                mops.append(f"AddToGroup {model['groups'].index(gname)} {cl(R)}")
             elif op == "record":
                 st = rng.choice(["v"] + [k for c in cell.channels for k in c.channel_states][:2])
                 view.record(st)
                 txt += f" {st}"
+                mops.append(f"Record_ {cl(R)}")
             elif op == "delete_recordings":
                 view.delete_recordings()
+                mops.append(f"DeleteRecordings {cl(R)}")
             elif op == "stimulate":
                 view.stimulate(jnp.asarray([0.05, 0.1, 0.0]))
+                mops.append(f"Stimulate {cl(R)}")
             elif op == "clamp":
                 view.clamp("v", jnp.asarray([-60.0, -60.0, -60.0]))
+                mops.append(f"Clamp {cl(R)}")
             elif op == "delete_stimuli":
                 view.delete_stimuli()
+                mops.append(f"DeleteStimuli {cl(R)}")
             elif op == "delete_clamps":
                 view.delete_clamps()
+                mops.append(f"DeleteClamps {cl(R)}")
             elif op == "make_trainable":
                 key = rng.choice(["radius", "length", "v"] + [k for c in cell.channels for k in list(c.channel_params)[:1] + list(c.channel_states)[:1]])
                 txt += f" {key}"
+                ntr = len(cell.trainable_params)
+                how = rng.choice(["view", "view", "per_branch", "per_comp"])
                 try:
-                    view.make_trainable(key)
+                    if how == "per_branch" and view is not cell:
+                        # one parameter per branch in view (several groups of possibly unequal size)
+                        bs = sorted(set(int(b) for b in cell.nodes.loc[rows, "global_branch_index"]))
+                        cell.branch(bs).make_trainable(key)
+                        txt += f" per branch {bs}"
+                    elif how == "per_comp" and view is not cell:
+                        bs = sorted(set(int(b) for b in cell.nodes.loc[rows, "global_branch_index"]))
+                        cell.branch(bs).comp("all").make_trainable(key)
+                        txt += f" per compartment of branches {bs}"
+                    else:
+                        view.make_trainable(key)
                 except (KeyError, AssertionError, ValueError):
                     return txt + " (refused)"
+                if len(cell.trainable_params) == ntr + 1:
+                    gs = [sorted(set(int(i) for i in g if int(i) >= 0)) for g in np.asarray(cell.indices_set_by_trainables[-1]).tolist()]
+                    mops.append("MakeTrainable [" + "; ".join(cl(g) for g in gs) + "]")
             elif op == "delete_trainables":
                 # independent expectation: every group loses exactly the rows of the view
                 inview = set(rows) if view is not cell else set(range(n))
@@ -220,6 +265,7 @@ def run(ctx):
                     if groups:
                         want.append((k, sorted(groups)))
                 view.delete_trainables()
+                mops.append(f"DeleteTrainables {cl(sorted(inview))}")
                 got = []
                 for inds, p in zip(cell.indices_set_by_trainables, cell.trainable_params):
                     groups = [sorted(set(int(i) for i in g if int(i) >= 0)) for g in np.asarray(inds).tolist()]
@@ -232,6 +278,7 @@ def run(ctx):
                                  "parents": [int(x) for x in cell.comb_parents], "counts": [int(x) for x in cell.ncomp_per_branch]})
             elif op == "init_states":
                 cell.init_states()
+                mops.append("InitStates")
         return txt
 
     # refused set_ncomp calls (several branches at once, whole cell) leave the module untouched
@@ -262,6 +309,7 @@ def run(ctx):
         except Exception as ex:
             viol.append({"kind": "refusal test raised", "error": repr(ex)[:300]})
 
+    model_jobs = []
     nhist = ctx.budget(14, 120)
     for hi in range(nhist):
         nb = rng.randint(1, 3)
@@ -271,6 +319,8 @@ def run(ctx):
             cell = jx.Cell([jx.Branch([comp] * c) for c in counts], parents=parents)
         depth = rng.randint(2, ctx.budget(7, 12))
         hist = []
+        model["ops"], model["groups"] = [], []
+        n0 = len(cell.nodes)
         desc = {"parents": parents, "counts": counts, "history": hist}
         ok = True
         # the first histories start with the shared-column pattern
@@ -282,6 +332,7 @@ def run(ctx):
                     o, name = f.split(":")
                     with quiet():
                         getattr(cell, o)(getattr(CH, name)())
+                    model["ops"].append(f"{'Insert' if o == 'insert' else 'Delete'} {CH_ID[name]} {cl(range(len(cell.nodes)))}")
                     hist.append(f"{o} {name} on all rows")
                     ok = check_tables(cell, viol, desc, hist[-1]) and ok
             elif hi < 2 * len(forced) and len(cell.nodes) >= 2:
@@ -297,6 +348,7 @@ def run(ctx):
                 for rows_, o, name in ((A, "insert", keep), (B, "insert", gone_first), (B, "delete_channel", gone_first)):
                     with quiet():
                         getattr(cell.select(nodes=rows_), o)(getattr(CH, name)())
+                    model["ops"].append(f"{'Insert' if o == 'insert' else 'Delete'} {CH_ID[name]} {cl(rows_)}")
                     hist.append(f"{o} {name} on rows {rows_}")
                     evals += 1
                     ok = check_tables(cell, viol, desc, hist[-1]) and ok
@@ -315,6 +367,25 @@ def run(ctx):
             viol.append(dict(desc, kind="an accepted operation raised", error=repr(ex)[:300], trace=traceback.format_exc()[-500:]))
             continue
         distinct.add((tuple(parents), tuple(counts), tuple(hist)))
+        # the tables after the history, to be compared with Model/History.v run on the same operations
+        try:
+            nd = cell.nodes
+            chan_real = [sorted(int(i) for i in nd.index[nd[c.__name__].to_numpy().astype(bool)]) if c.__name__ in nd.columns else [] for c in channels()]
+            col_real = [sorted(int(i) for i in nd.index[~nd[k].isna().to_numpy()]) if k in nd.columns else [] for k in COLS]
+            cstates, _ = cell._get_state_names()
+            recs_real = sorted(set(int(i) for i, st_ in zip(cell.recordings.rec_index, cell.recordings.state) if st_ in cstates)) if len(cell.recordings) else []
+            exts_real = sorted(int(i) for i in np.asarray(cell.external_inds.get("i", [])).reshape(-1))
+            clamps_real = sorted(set(int(i) for i in np.asarray(cell.external_inds.get("v", [])).reshape(-1)))
+            groups_real = [sorted(int(i) for i in cell.groups[g]) for g in model["groups"] if g in cell.groups]
+            trains_real = sorted(sorted(sorted(set(int(i) for i in g if int(i) >= 0)) for g in np.asarray(inds).tolist()) for inds in cell.indices_set_by_trainables)
+            real_state = [len(nd), chan_real, col_real, recs_real, exts_real, clamps_real, groups_real, trains_real]
+            ops = "[" + "; ".join(model["ops"]) + "]"
+            expr = (f"let ow := fun k => nth k {OWNS} [] in let s := run ow {len(channels())} (init {n0}) {ops} in "
+                    f"(nrows s, (map (chan s) (seq 0 {len(channels())}), (map (col s) (seq 0 {len(COLS)}), (recs s, (exts s, (clamps s, (groups s, trains s)))))))")
+            model_jobs.append((expr, real_state, dict(desc, history=list(hist), model_ops=list(model["ops"]))))
+        except Exception as ex:
+            import traceback
+            viol.append(dict(desc, kind="could not read the tables for the model comparison", error=repr(ex)[:300], trace=traceback.format_exc()[-400:]))
         if len(samples) < 2:
             samples.append(dict(desc, history=list(hist)))
         if not ok:
@@ -340,6 +411,34 @@ def run(ctx):
         except Exception as ex:
             import traceback
             viol.append(dict(desc, kind="integrate after an accepted history raised", error=repr(ex)[:300], trace=traceback.format_exc()[-600:]))
+
+    # ---- correspondence: Model/History.v run on the same operations must show the same tables
+    nmodel = 0
+    try:
+        import coqeval, re, ast
+        outs = coqeval.coq_eval(["SetNcomp", "History", "HistoryFacts"], [j[0] for j in model_jobs], prelude="Close Scope Q_scope. Open Scope nat_scope.")
+
+        def norm(x):
+            return x
+        for (expr, real, d), o in zip(model_jobs, outs):
+            t = ast.literal_eval(o.replace(";", ","))
+            # unnest the right-nested pairs
+            flat = []
+            while isinstance(t, tuple) and len(t) == 2 and len(flat) < 7:
+                flat.append(t[0]); t = t[1]
+            flat.append(t)
+            nrows_m, chan_m, col_m, recs_m, exts_m, clamps_m, groups_m, trains_m = flat
+            mstate = [nrows_m, [sorted(x) for x in chan_m], [sorted(x) for x in col_m], sorted(set(recs_m)), sorted(exts_m), sorted(set(clamps_m)),
+                      [sorted(set(g)) for g in groups_m], sorted(sorted(sorted(g) for g in tr) for tr in trains_m)]
+            nmodel += 1
+            names = ["number of rows", "channel flags", "parameter/state columns", "recorded rows", "stimulated rows", "clamped rows", "groups", "trainables"]
+            for nm, a, b in zip(names, real, mstate):
+                if a != b:
+                    viol.append(dict(d, kind=f"the tables differ from Model/History.v run on the same operations: {nm}", tables=a, model=b))
+                    break
+    except Exception as ex:
+        import traceback
+        viol.append({"kind": "History correspondence could not be evaluated", "error": repr(ex)[:500], "trace": traceback.format_exc()[-500:], "no_failing_input_found": True})
 
     # deletions undo their insertions
     for cls in channels():
@@ -404,7 +503,7 @@ def run(ctx):
         v.setdefault("finding_class", None)
     return {"evaluations": evals, "distinct_nontrivial": len(distinct),
             "rule": "random histories (depth 2..7/12) over 14 operations (make_trainable on geometric keys, v, channel parameters and states; delete_trainables through views against an independent expectation) on random views of irregular cells, the first ones seeded with shared-column patterns (Na/K vt, K/Km eK and i_K, CaL/CaT eCa) on the whole module and on disjoint views (the channel is deleted through a view that does not contain its partner): after EVERY operation contiguity, channel registry, parameters-where-channel, currents, and the row references of recordings/inputs/groups/trainables are checked on the public tables; then integrate is compared with a module rebuilt from the tables only; insert+delete round trips for every channel; network histories with synaptic recordings and view-level deletions; distinct by (cell, history)",
-            "samples": samples, "violations": viol[:20]}
+            "samples": samples, "violations": viol[:20], "traces_validated_against_impl": nmodel}
 
 
 def replay(ctx, case):
